@@ -21,9 +21,14 @@
 #define BT_STATE(s) (BT(s)->conn.state)
 #define BT_STATE_OK(s) ((unsigned)BT_STATE(s) <= (unsigned)conn_state_closed)
 #define BT_DEAD_STATE(s) (BT_STATE(s) == conn_state_closed || BT_STATE(s) == conn_state_bad)
-#define BT_BOOLS_OK(s) 1
 #define BCN(s, c) (BT(s)->conn.cnts[xcm_tp_cnt_##c])
 #define BT_U8(p) ((const uint8_t *)(p))
+/* a call counter grew by at most n (what a replaced contract must say about every counter it may touch) */
+#define XV_GROW(c, n) ((c) >= __CPROVER_old(c) && (c) <= __CPROVER_old(c) + (n))
+#define BT_BOOL(b) ((b) == 0 || (b) == 1)
+/* the boolean fields hold 0 or 1 (they are only ever written through `bool` lvalues) */
+#define BT_BOOLS_OK(s) (BT_BOOL(BT(s)->tls_auth) && BT_BOOL(BT(s)->check_crl) && BT_BOOL(BT(s)->tls_client) && BT_BOOL(BT(s)->check_time) && BT_BOOL(BT(s)->verify_peer_name) && \
+                        BT_BOOL(BT(s)->valid_peer_names_set) && BT_BOOL(BT(s)->tc_set) && BT_BOOL(BT(s)->crl_set))
 
 /* the policy verdict of the SSL session (env/ssl_env.h) satisfies the socket's authentication policy */
 #define BT_VERDICT_OK(s) (!BT(s)->tls_auth || (xv_ssl_peer_cert && xv_ssl_verify_result == X509_V_OK))
@@ -33,7 +38,12 @@
  *    satisfies the policy; OpenSSL was configured (set_verify) before any handshake call */
 #define BT_TERMINAL_INV(s) (BT_STATE(s) == conn_state_bad ==> (BT(s)->conn.badness_reason > 0 && BT(s)->conn.badness_reason != EAGAIN))
 #define BT_READY_INV(s) (BT_STATE(s) == conn_state_ready ==> (xv_ssl_hs_done && BT_VERDICT_OK(s)))
-#define BT_CONFIGURED(s) (xv_ssl_set_verify_calls >= 1 && xv_ssl_set_verify_ssl == BT(s)->conn.ssl)
+/* CONFIGURED: OpenSSL holds exactly the socket's policy: verify mode from (tls.client, tls.auth), the CRL / no-time-check flags
+ * from (tls.check_crl, tls.check_time), and with tls.verify_peer_name the host flags and a non-empty list of expected names */
+#define BT_CONFIGURED(s) (xv_ssl_set_verify_calls >= 1 && xv_ssl_set_verify_ssl == BT(s)->conn.ssl && \
+                          xv_ssl_set_verify_mode == BT_MODE(BT(s)->tls_client, BT(s)->tls_auth) && \
+                          (xv_x509_flags & BT_XFLAGS(BT(s)->check_crl, BT(s)->check_time)) == BT_XFLAGS(BT(s)->check_crl, BT(s)->check_time) && \
+                          (BT(s)->verify_peer_name ==> (xv_x509_hostflags == (X509_CHECK_FLAG_NO_WILDCARDS | X509_CHECK_FLAG_ALWAYS_CHECK_SUBJECT) && xv_x509_nhosts >= 1)))
 #define BT_CONN_INV(s) (BT_STATE_OK(s) && BT_TERMINAL_INV(s) && BT_READY_INV(s) && \
                         ((BT_STATE(s) == conn_state_tls_handshaking || BT_STATE(s) == conn_state_ready) ==> BT_CONFIGURED(s)))
 
@@ -83,10 +93,229 @@ void slist_destroy(struct slist *slist)
         xv_slist_destroyed = slist;
     }
 }
+/* TRUSTED(xcm slist.c) slist_clone: a new list with the same strings (ONE list content is modelled: xv_slist_n, xv_slist_name_k) */
+long xv_slist_clone_calls; const struct slist *xv_slist_clone_src; struct slist *xv_slist_clone_ret;
+struct slist *slist_clone(const struct slist *orig)
+{
+    __CPROVER_assert(orig != NULL, "slist_clone: list given");
+    struct slist *c = malloc(1); __CPROVER_assume(c != NULL);
+    xv_slist_clone_calls++; xv_slist_clone_src = orig; xv_slist_clone_ret = c;
+    return c;
+}
 static inline void xv_btls_havoc(void)
 {
+    xv_slist_clone_calls = nondet_long(); xv_slist_clone_src = (const struct slist *)nondet_size_t(); xv_slist_clone_ret = (struct slist *)nondet_size_t();
     xv_slist_n = nondet_size_t(); xv_slist_name_k = (const char *)nondet_size_t();
     xv_slist_destroy_calls = nondet_long(); xv_slist_destroyed = (const struct slist *)nondet_size_t();
+}
+
+/* TRUSTED(xcm item.c) item_init/item_is_set/item_deinit/item_set_file/item_copy: same text as libxcm/tp/tls/item.c except
+ * that the `data` strings are opaque tokens (one fresh byte each; ut_strdup/ut_free are not modelled) and that what happens
+ * to ONE arbitrary item, xv_it_watch (never assigned), is recorded:
+ *   xv_it_w_deinits   how often its content was dropped
+ *   xv_it_w_sets      how often a file name was put into it, and for the last time: the ut_asprintf call that produced
+ *                     the name (xv_it_w_fmt/_a/_b/_nargs/_a_default, see xv_asprintf2/3 below; nargs -1: some other string)
+ *   xv_it_w_copies    how often it was overwritten by item_copy, last source xv_it_w_src */
+struct item *xv_it_watch;
+long xv_it_w_deinits, xv_it_w_sets, xv_it_w_copies; const struct item *xv_it_w_src;
+const char *xv_it_w_fmt, *xv_it_w_a, *xv_it_w_b; int xv_it_w_nargs; _Bool xv_it_w_a_default;
+long xv_asp_calls; const char *xv_asp_fmt, *xv_asp_a, *xv_asp_b; int xv_asp_nargs; char *xv_asp_ret; _Bool xv_asp_a_default;
+#define XV_ITEM_ASSIGNS xv_it_w_deinits, xv_it_w_sets, xv_it_w_copies, xv_it_w_src, xv_it_w_fmt, xv_it_w_a, xv_it_w_b, xv_it_w_nargs, xv_it_w_a_default
+#define XV_ASP_ASSIGNS xv_asp_calls, xv_asp_fmt, xv_asp_a, xv_asp_b, xv_asp_nargs, xv_asp_ret, xv_asp_a_default
+bool item_is_set(const struct item *item) { return item->type != item_type_none; }
+void item_init(struct item *item) { item->type = item_type_none; item->sensitive = false; item->data = NULL; }
+void item_deinit(struct item *item)
+{
+    if (item != NULL && item_is_set(item)) {
+        if (item == xv_it_watch) xv_it_w_deinits++;
+        item_init(item);
+    }
+}
+void item_set_file(struct item *item, const char *filename, bool sensitive)
+{
+    __CPROVER_assert(filename != NULL && __CPROVER_r_ok(filename, 1), "item_set_file: file name given");
+    item_deinit(item);
+    char *d = malloc(1); __CPROVER_assume(d != NULL);
+    item->type = item_type_file; item->sensitive = sensitive; item->data = d;
+    if (item == xv_it_watch) {
+        xv_it_w_sets++;
+        if (filename == xv_asp_ret) {
+            xv_it_w_fmt = xv_asp_fmt; xv_it_w_a = xv_asp_a; xv_it_w_b = xv_asp_b; xv_it_w_nargs = xv_asp_nargs; xv_it_w_a_default = xv_asp_a_default;
+        } else
+            xv_it_w_nargs = -1;
+    }
+}
+void item_copy(const struct item *src_item, struct item *dst_item)
+{
+    item_deinit(dst_item);
+    dst_item->type = src_item->type;
+    if (src_item->type != item_type_none) {
+        char *d = malloc(1); __CPROVER_assume(d != NULL);
+        dst_item->data = d;
+    }
+    if (dst_item == xv_it_watch) { xv_it_w_copies++; xv_it_w_src = src_item; }
+}
+/* TRUSTED(xcm util.c) ut_asprintf through the fixed-arity macro of harness/btls/_unit.h: a fresh NUL-terminated string of
+ * ANY length 0..XV_PATH_MAX with arbitrary content; the arguments are recorded (xv_asp_a_default: the first %s argument
+ * reads "/etc/xcm/tls", the DEFAULT_CERT_DIR of this build) */
+#define XV_PATH_MAX 64
+#define XV_IS_DEFAULT_DIR(a) ((a)[0] == '/' && (a)[1] == 'e' && (a)[2] == 't' && (a)[3] == 'c' && (a)[4] == '/' && (a)[5] == 'x' && (a)[6] == 'c' && (a)[7] == 'm' && \
+                              (a)[8] == '/' && (a)[9] == 't' && (a)[10] == 'l' && (a)[11] == 's' && (a)[12] == 0)
+static char *xv_asprintf_n(const char *fmt, const char *a, const char *b, int nargs)
+{
+    __CPROVER_assert(fmt != NULL && __CPROVER_r_ok(fmt, 1) && a != NULL && __CPROVER_r_ok(a, 1), "ut_asprintf: format and string argument readable");
+    size_t n = nondet_size_t();
+    __CPROVER_assume(n <= XV_PATH_MAX);
+    char *p = malloc(n + 1);
+    __CPROVER_assume(p != NULL);
+    p[n] = '\0';
+    xv_asp_calls++;
+    xv_asp_fmt = fmt; xv_asp_a = a; xv_asp_b = b; xv_asp_nargs = nargs; xv_asp_ret = p;
+    xv_asp_a_default = __CPROVER_r_ok(a, 13) && XV_IS_DEFAULT_DIR(a);
+    return p;
+}
+char *xv_asprintf2(const char *fmt, const char *a) { return xv_asprintf_n(fmt, a, NULL, 1); }
+char *xv_asprintf3(const char *fmt, const char *a, const char *b)
+{
+    __CPROVER_assert(b != NULL && __CPROVER_r_ok(b, 1), "ut_asprintf: second string argument readable");
+    return xv_asprintf_n(fmt, a, b, 2);
+}
+/* TRUSTED(xcm util.c) ut_self_net_ns, as documented in util.h ("'name' buffer needs to be NAME_MAX in size"): fails (-1, some
+ * errno, buffer content arbitrary) or stores the name of the calling thread's network namespace ("" = the default one) */
+long xv_ns_calls; int xv_ns_rc; _Bool xv_ns_empty; const char *xv_ns_buf;
+#define XV_NS_ASSIGNS xv_ns_calls, xv_ns_rc, xv_ns_empty, xv_ns_buf
+int ut_self_net_ns(char *name)
+{
+    __CPROVER_assert(__CPROVER_w_ok(name, NAME_MAX), "ut_self_net_ns: NAME_MAX bytes writeable");
+    xv_ns_calls++; xv_ns_buf = name;
+    __CPROVER_havoc_slice(name, NAME_MAX);
+    if (nondet_bool()) {
+        int e = nondet_int(); __CPROVER_assume(e > 0); xv_errno = e;
+        xv_ns_rc = -1;
+        return -1;
+    }
+    size_t n = nondet_size_t();
+    __CPROVER_assume(n < NAME_MAX);
+    name[n] = '\0';
+    __CPROVER_assume(n == 0 || name[0] != '\0');
+    xv_ns_rc = 0; xv_ns_empty = (n == 0);
+    return 0;
+}
+/* TRUSTED(libc) getenv: the variable is unset (NULL) or has the value xv_env_val (some string) -- as it stands at the call */
+long xv_getenv_calls; _Bool xv_env_set; char xv_env_val[16];
+char *getenv(const char *name)
+{
+    xv_getenv_calls++;
+    return xv_env_set ? xv_env_val : NULL;
+}
+static inline void xv_conf_havoc(void)
+{
+    xv_it_watch = (struct item *)nondet_size_t();
+    xv_it_w_deinits = nondet_long(); xv_it_w_sets = nondet_long(); xv_it_w_copies = nondet_long(); xv_it_w_src = (const struct item *)nondet_size_t();
+    xv_it_w_fmt = xv_it_w_a = xv_it_w_b = (const char *)nondet_size_t(); xv_it_w_nargs = nondet_int(); xv_it_w_a_default = nondet_bool();
+    xv_asp_calls = nondet_long(); xv_asp_fmt = xv_asp_a = xv_asp_b = (const char *)nondet_size_t(); xv_asp_nargs = nondet_int(); xv_asp_ret = (char *)nondet_size_t();
+    xv_asp_a_default = nondet_bool();
+    xv_ns_calls = nondet_long(); xv_ns_rc = nondet_int(); xv_ns_empty = nondet_bool(); xv_ns_buf = (const char *)nondet_size_t();
+    xv_getenv_calls = nondet_long(); xv_env_set = nondet_bool();
+    __CPROVER_havoc_slice(xv_env_val, sizeof(xv_env_val)); xv_env_val[sizeof(xv_env_val) - 1] = '\0';
+}
+
+/* TRUSTED(xcm xpoll.c, ctx_store.c, xcm_tp.c, common_tp.c, xcm_addr.c, slist.c) what btls_connect/btls_accept/deinit/conn_update
+ * call in other modules: any result the real function may have, arguments recorded */
+long xv_bell_adds, xv_bell_dels, xv_bell_mods; _Bool xv_bell_ringing;
+int xpoll_bell_reg_add(struct xpoll *xpoll, bool ringing) { xv_bell_adds++; int id = nondet_int(); __CPROVER_assume(id >= 0); return id; }
+void xpoll_bell_reg_mod(struct xpoll *xpoll, int reg_id, bool ringing) { xv_bell_mods++; xv_bell_ringing = ringing; }
+void xpoll_bell_reg_del(struct xpoll *xpoll, int reg_id) { xv_bell_dels++; }
+long xv_ctx_get_calls, xv_ctx_refs; const struct item *xv_ctx_cert, *xv_ctx_key, *xv_ctx_tc, *xv_ctx_crl;
+/* what the four items designated when the context was fetched (types; the data are opaque) */
+int xv_ctx_cert_type, xv_ctx_key_type, xv_ctx_tc_type, xv_ctx_crl_type;
+SSL_CTX *ctx_store_get_ctx(const struct item *cert, const struct item *key, const struct item *tc, const struct item *crl, void *log_ref)
+{
+    xv_ctx_get_calls++;
+    xv_ctx_cert = cert; xv_ctx_key = key; xv_ctx_tc = tc; xv_ctx_crl = crl;
+    xv_ctx_cert_type = cert->type; xv_ctx_key_type = key->type; xv_ctx_tc_type = tc->type; xv_ctx_crl_type = crl->type;
+    if (nondet_bool()) {
+        int e = nondet_int(); __CPROVER_assume(e > 0); xv_errno = e;
+        return NULL;
+    }
+    xv_ctx_refs++;
+    return XV_CTX;
+}
+void ctx_store_put(SSL_CTX *ssl_ctx)
+{
+    __CPROVER_assert(ssl_ctx == XV_CTX && xv_ctx_refs > 0, "ctx_store_put: a context obtained from ctx_store_get_ctx");
+    xv_ctx_refs--;
+}
+struct xcm_socket *xv_low_s;
+long xv_low_connects, xv_low_accepts, xv_low_closes, xv_low_destroys, xv_low_updates; int xv_low_update_cond;
+int xcm_tp_socket_connect(struct xcm_socket *s, const char *remote_addr)
+{
+    xv_low_connects++; xv_low_s = s;
+    if (nondet_bool()) { int e = nondet_int(); __CPROVER_assume(e > 0); xv_errno = e; return -1; }
+    return 0;
+}
+int xcm_tp_socket_accept(struct xcm_socket *conn_s, struct xcm_socket *server_s)
+{
+    xv_low_accepts++; xv_low_s = conn_s;
+    if (nondet_bool()) { int e = nondet_int(); __CPROVER_assume(e > 0); xv_errno = e; return -1; }
+    return 0;
+}
+void xcm_tp_socket_close(struct xcm_socket *s) { xv_low_closes++; }
+void xcm_tp_socket_cleanup(struct xcm_socket *s) { xv_low_closes++; }
+void xcm_tp_socket_destroy(struct xcm_socket *s) { xv_low_destroys++; }
+_Bool xv_addr_valid;
+int btls_to_btcp(const char *btls_addr, char *btcp_addr, size_t capacity)
+{
+    __CPROVER_assert(capacity >= 1 && __CPROVER_w_ok(btcp_addr, capacity), "btls_to_btcp: output buffer writeable");
+    if (nondet_bool()) { xv_addr_valid = 0; xv_errno = nondet_bool() ? EINVAL : ENAMETOOLONG; return -1; }
+    __CPROVER_havoc_slice(btcp_addr, capacity);
+    btcp_addr[capacity - 1] = '\0';
+    xv_addr_valid = 1;
+    return 0;
+}
+_Bool xv_addr_is_name;
+int xcm_addr_parse_btls(const char *btls_addr_s, struct xcm_addr_host *host, uint16_t *port)
+{
+    /* an address btls_to_btcp() accepted parses (btls_to_btcp IS xcm_addr_parse_btls + xcm_addr_make_btcp, common_tp.c) */
+    __CPROVER_assert(xv_addr_valid, "xcm_addr_parse_btls: called for an address that btls_to_btcp accepted");
+    __CPROVER_havoc_slice(host, sizeof(*host));
+    host->type = xv_addr_is_name ? xcm_addr_type_name : xcm_addr_type_ip;
+    host->name[sizeof(host->name) - 1] = '\0';
+    *port = (uint16_t)nondet_uint();
+    return 0;
+}
+long xv_slist_create_calls; struct slist *xv_slist_created;
+struct slist *slist_create(void)
+{
+    struct slist *l = malloc(1); __CPROVER_assume(l != NULL);
+    xv_slist_create_calls++; xv_slist_created = l; xv_slist_n = 0;
+    return l;
+}
+void slist_append(struct slist *slist, const char *str)
+{
+    __CPROVER_assert(slist != NULL, "slist_append: list given");
+    if (xv_hk >= 0 && xv_slist_n == (size_t)xv_hk) xv_slist_name_k = str;
+    xv_slist_n++;
+}
+#define XV_OTHER_ASSIGNS xv_bell_adds, xv_bell_dels, xv_bell_mods, xv_bell_ringing, xv_ctx_get_calls, xv_ctx_refs, xv_ctx_cert, xv_ctx_key, xv_ctx_tc, xv_ctx_crl, \
+                         xv_ctx_cert_type, xv_ctx_key_type, xv_ctx_tc_type, xv_ctx_crl_type, \
+                         xv_low_connects, xv_low_accepts, xv_low_closes, xv_low_destroys, xv_low_s, xv_addr_valid, xv_slist_create_calls, xv_slist_created, \
+                         xv_slist_n, xv_slist_name_k, xv_slist_destroy_calls, xv_slist_destroyed
+#define XV_OTHER_LIM(lim) (XV_CNT_LIM(xv_bell_adds, lim) && XV_CNT_LIM(xv_bell_dels, lim) && XV_CNT_LIM(xv_bell_mods, lim) && XV_CNT_LIM(xv_ctx_get_calls, lim) && XV_CNT_LIM(xv_ctx_refs, lim) && \
+                        XV_CNT_LIM(xv_low_connects, lim) && XV_CNT_LIM(xv_low_accepts, lim) && XV_CNT_LIM(xv_low_closes, lim) && XV_CNT_LIM(xv_low_destroys, lim) && \
+                        XV_CNT_LIM(xv_slist_create_calls, lim) && XV_CNT_LIM(xv_slist_destroy_calls, lim) && XV_CNT_LIM(xv_ssl_new_calls, lim) && XV_CNT_LIM(xv_bio_new_calls, lim) && \
+                        XV_CNT_LIM(xv_set_bio_calls, lim) && XV_CNT_LIM(xv_low_updates, lim))
+#define XV_OTHER_RANGE XV_OTHER_LIM(XV_SSL_CALLS_MAX)
+#define XV_OTHER_RANGE_IN XV_OTHER_LIM(4 * XV_SSL_CALLS_MAX)
+static inline void xv_other_havoc(void)
+{
+    xv_bell_adds = nondet_long(); xv_bell_dels = nondet_long(); xv_bell_mods = nondet_long(); xv_bell_ringing = nondet_bool();
+    xv_ctx_get_calls = nondet_long(); xv_ctx_refs = nondet_long(); xv_ctx_cert = xv_ctx_key = xv_ctx_tc = xv_ctx_crl = (const struct item *)nondet_size_t();
+    xv_ctx_cert_type = nondet_int(); xv_ctx_key_type = nondet_int(); xv_ctx_tc_type = nondet_int(); xv_ctx_crl_type = nondet_int();
+    xv_low_connects = nondet_long(); xv_low_accepts = nondet_long(); xv_low_closes = nondet_long(); xv_low_destroys = nondet_long(); xv_low_updates = nondet_long();
+    xv_low_update_cond = nondet_int();
+    xv_addr_valid = nondet_bool(); xv_addr_is_name = nondet_bool(); xv_slist_create_calls = nondet_long(); xv_slist_created = (struct slist *)nondet_size_t();
+    xv_ssl_new_havoc();
 }
 
 /* ================================================================================================================ */
@@ -96,7 +325,7 @@ static inline void xv_btls_havoc(void)
 #define BT_XFLAGS(check_crl, check_time) (((check_crl) ? (unsigned long)(X509_V_FLAG_CRL_CHECK | X509_V_FLAG_CRL_CHECK_ALL) : 0UL) | \
                                           ((check_time) ? 0UL : (unsigned long)X509_V_FLAG_NO_CHECK_TIME))
 static void set_verify(SSL *ssl, bool tls_client, bool tls_auth, bool check_crl, bool check_time)
-__CPROVER_requires(XV_SSL_GHOST_RANGE)
+__CPROVER_requires(XV_SSL_GHOST_RANGE_IN)
 __CPROVER_assigns(XV_SSL_CONF_ASSIGNS)
 /* PO[C09] set_verify.mode: exactly one SSL_set_verify on this SSL; auth => VERIFY_PEER (| FAIL_IF_NO_PEER_CERT on the server side), no auth => VERIFY_NONE */
 __CPROVER_ensures(xv_ssl_set_verify_calls == __CPROVER_old(xv_ssl_set_verify_calls) + 1 && xv_ssl_set_verify_ssl == ssl && \
@@ -105,6 +334,7 @@ __CPROVER_ensures(xv_ssl_set_verify_calls == __CPROVER_old(xv_ssl_set_verify_cal
 __CPROVER_ensures(xv_x509_flags == (__CPROVER_old(xv_x509_flags) | BT_XFLAGS(check_crl, check_time)))
 /* PO[C09] set_verify.own_param: flags are changed only on the parameter object of this SSL */
 __CPROVER_ensures(xv_x509_set_flags_calls != __CPROVER_old(xv_x509_set_flags_calls) ==> xv_get0_param_ssl == ssl)
+__CPROVER_ensures(XV_GROW(xv_get0_param_calls, 1) && XV_GROW(xv_x509_set_flags_calls, 1))
 /* PO[C09] set_verify.callback_passthrough: the verify callback cannot turn a failed check into a pass (it is verify_cb, which returns `ok` unchanged: job btls.verify_cb) */
 __CPROVER_ensures(xv_ssl_set_verify_cb == verify_cb)
 ;
@@ -120,7 +350,7 @@ __CPROVER_ensures(__CPROVER_return_value == ok)
 /* ================================================================================================================ */
 /* ---- verify_peer_cert: called in state ready right after a successful handshake when tls.auth is on */
 static void verify_peer_cert(struct xcm_socket *s)
-__CPROVER_requires(BT_FRESH(s) && BT_STATE(s) == conn_state_ready && XV_SSL_GHOST_RANGE)
+__CPROVER_requires(BT_FRESH(s) && BT_STATE(s) == conn_state_ready && XV_SSL_GHOST_RANGE_IN)
 __CPROVER_assigns(BT_STATE(s), BT(s)->conn.badness_reason, XV_SSL_VERDICT_ASSIGNS)
 /* PO[C09] verify_peer_cert.verdict_consulted: the socket stays ready ONLY IF the peer presented a certificate AND OpenSSL's verification verdict is X509_V_OK */
 __CPROVER_ensures(BT_STATE(s) == conn_state_ready ==> (xv_ssl_peer_cert && xv_ssl_verify_result == X509_V_OK))
@@ -174,7 +404,10 @@ __CPROVER_ensures(BT_EV_MAP(s, condition, ssl_errno))
 /* ---- try_finish_tls_handshake */
 #define BT_HS_ENTERED (xv_hs_calls != __CPROVER_old(xv_hs_calls))
 static void try_finish_tls_handshake(struct xcm_socket *s)
-__CPROVER_requires(BT_FRESH(s) && XV_SSL_GHOST_RANGE && BT_CONN_INV(s))
+__CPROVER_requires(BT_FRESH(s))
+__CPROVER_requires(XV_SSL_GHOST_RANGE_IN)
+__CPROVER_requires(BT_STATE_OK(s) && BT_TERMINAL_INV(s) && BT_READY_INV(s))
+__CPROVER_requires((BT_STATE(s) == conn_state_tls_handshaking || BT_STATE(s) == conn_state_ready) ==> BT_CONFIGURED(s))
 __CPROVER_assigns(xv_errno, XV_SSL_HS_ASSIGNS, XV_SSL_VERDICT_ASSIGNS)
 __CPROVER_assigns(BT_STATE(s), BT(s)->conn.badness_reason, BT(s)->conn.ssl_condition, BT(s)->conn.ssl_wants)
 /* PO[C09] try_finish_tls_handshake.ready_only_if_verified: state ready is reached ONLY IF the handshake call returned success AND (tls.auth is off OR (a peer certificate is present AND the verdict is X509_V_OK)) */
@@ -184,6 +417,8 @@ __CPROVER_ensures((BT_STATE(s) == conn_state_ready && __CPROVER_old(BT_STATE(s))
 __CPROVER_ensures((BT_HS_ENTERED && xv_hs_ret >= 1 && !BT_VERDICT_OK(s)) ==> (BT_STATE(s) == conn_state_bad && BT(s)->conn.badness_reason == EPROTO))
 /* PO[C09] try_finish_tls_handshake.established: handshake done and policy satisfied => ready (no spurious refusal) */
 __CPROVER_ensures((BT_HS_ENTERED && xv_hs_ret >= 1 && BT_VERDICT_OK(s)) ==> BT_STATE(s) == conn_state_ready)
+/* PO[C09] try_finish_tls_handshake.configured_first: whenever the handshake is entered OpenSSL holds exactly the socket's policy (CONFIGURED above; established by btls_connect/btls_accept before the state becomes handshaking) */
+__CPROVER_ensures(BT_HS_ENTERED ==> BT_CONFIGURED(s))
 /* PO[C09] try_finish_tls_handshake.one_step_own_role: only a handshaking socket enters OpenSSL: one SSL_connect (tls.client) or SSL_accept (server role) on the socket's own SSL; otherwise nothing at all happens */
 __CPROVER_ensures(__CPROVER_old(BT_STATE(s)) == conn_state_tls_handshaking \
         ? (xv_hs_calls == __CPROVER_old(xv_hs_calls) + 1 && xv_hs_ssl == BT(s)->conn.ssl && xv_hs_connect == (BT(s)->tls_client != 0)) \
@@ -197,6 +432,9 @@ __CPROVER_ensures((BT_STATE(s) == conn_state_closed && __CPROVER_old(BT_STATE(s)
 /* PO[C06] try_finish_tls_handshake.terminal_sticks: closed and bad are absorbing, the stored errno is immutable */
 __CPROVER_ensures((__CPROVER_old(BT_STATE(s)) == conn_state_closed || __CPROVER_old(BT_STATE(s)) == conn_state_bad) ==> \
                   (BT_STATE(s) == __CPROVER_old(BT_STATE(s)) && BT(s)->conn.badness_reason == __CPROVER_old(BT(s)->conn.badness_reason)))
+__CPROVER_ensures(XV_GROW(xv_hs_calls, 1) && XV_GROW(xv_peer_cert_calls, 1) && XV_GROW(xv_verify_result_calls, 1) && XV_GROW(xv_errstr_calls, 1))
+/* the state machine only moves forward: handshaking -> {handshaking, ready, bad, closed} */
+__CPROVER_ensures(__CPROVER_old(BT_STATE(s)) == conn_state_tls_handshaking ==> (BT_STATE(s) >= conn_state_tls_handshaking && ((BT_HS_ENTERED && xv_hs_ret < 1) ==> BT_ERR_CLASS_OK)))
 /* the caller's errno survives, the representation invariants hold again, the certificate reference is given back */
 __CPROVER_ensures(xv_errno == __CPROVER_old(xv_errno))
 __CPROVER_ensures(BT_CONN_INV(s))
@@ -206,11 +444,13 @@ __CPROVER_ensures(xv_x509_refs == __CPROVER_old(xv_x509_refs))
 /* ---- enable_hostname_validation (tls.verify_peer_name) */
 /* representation invariant: a name list, when present, is not empty (set_peer_names_attr keeps NULL for an empty value,
  * btls_connect appends the host name, inherit_tls_conf clones a non-empty list) */
-#define BT_NAMES_INV(s) (BT(s)->valid_peer_names != NULL ==> (xv_slist_n >= 1 && xv_slist_n < XV_SLIST_N_MAX && xv_slist_name_k != NULL))
+#define BT_NAMES_INV(s) (BT(s)->valid_peer_names != NULL ==> (xv_slist_n >= 1 && xv_slist_n < XV_SLIST_N_MAX && ((xv_hk >= 0 && xv_hk < (long)xv_slist_n) ==> xv_slist_name_k != NULL)))
 #define BT_HOSTVAL_UNTOUCHED (xv_x509_set_hostflags_calls == __CPROVER_old(xv_x509_set_hostflags_calls) && xv_x509_add_calls == __CPROVER_old(xv_x509_add_calls) && \
                               xv_x509_host_resets == __CPROVER_old(xv_x509_host_resets) && xv_x509_nhosts == __CPROVER_old(xv_x509_nhosts))
 static int enable_hostname_validation(struct xcm_socket *s)
-__CPROVER_requires(BT_FRESH(s) && XV_SSL_GHOST_RANGE && BT_NAMES_INV(s))
+__CPROVER_requires(BT_FRESH(s))
+__CPROVER_requires(XV_SSL_GHOST_RANGE_IN)
+__CPROVER_requires(BT_NAMES_INV(s))
 __CPROVER_assigns(xv_errno, XV_SSL_HOST_ASSIGNS)
 __CPROVER_ensures(__CPROVER_return_value == 0 || (__CPROVER_return_value == -1 && xv_errno == EINVAL))
 /* PO[C09] enable_hostname_validation.needs_auth_and_names: without tls.auth, or without any expected name, name verification cannot be enabled: EINVAL, OpenSSL untouched */
@@ -223,6 +463,8 @@ __CPROVER_ensures(__CPROVER_return_value == 0 ==> (xv_x509_nhosts == (long)xv_sl
                                                     xv_x509_host_resets == __CPROVER_old(xv_x509_host_resets) + 1 && \
                                                     xv_x509_add_calls == __CPROVER_old(xv_x509_add_calls) + (long)xv_slist_n && \
                                                     ((xv_hk >= 0 && xv_hk < (long)xv_slist_n) ==> xv_x509_host_k == xv_slist_name_k)))
+__CPROVER_ensures(XV_GROW(xv_get0_param_calls, 1) && XV_GROW(xv_x509_set_hostflags_calls, 1) && XV_GROW(xv_x509_host_resets, 1) && XV_GROW(xv_x509_add_calls, (long)xv_slist_n) && \
+                  xv_x509_nhosts >= 0 && xv_x509_nhosts <= (long)xv_slist_n + __CPROVER_old(xv_x509_nhosts))
 /* PO[C09] enable_hostname_validation.no_partial_success: a name OpenSSL refuses makes the whole call fail */
 __CPROVER_ensures((BT(s)->tls_auth && BT(s)->valid_peer_names != NULL && __CPROVER_return_value == -1) ==> xv_x509_nhosts < (long)xv_slist_n)
 ;
@@ -268,19 +510,20 @@ __CPROVER_ensures((BT(s)->tls_auth && BT(s)->valid_peer_names != NULL && __CPROV
 /* which lengths/capacities are explored: default = the range the framing layer uses (LOWER_SEND_REQUIRES/LOWER_RECV_REQUIRES);
  * xcm_send()/xcm_receive() pass ANY size_t through for a byte-stream socket: variants zero and huge */
 #if defined(BT_ZERO)
-/* variant zero: the framing range plus the corner 0 (xcm_send(s, buf, 0), xcm_receive(s, buf, 0) on a byte-stream socket) */
-#define BT_LEN_OK(len) ((len) <= 0x7ffff000UL)
-#define BT_CAP_OK(c) ((c) <= BT_CAP_MAX)
+/* variant zero (receive only): the corner xcm_receive(s, buf, 0) on a byte-stream socket */
+#define BT_LEN_OK(len) ((len) == 0)
+#define BT_CAP_OK(c) ((c) == 0)
 #elif defined(BT_HUGE)
 /* variant huge: lengths/capacities that do not fit the `int num` of SSL_write/SSL_read: 2^31 .. 2^33 for send; for receive
  * those whose low 32 bits, as an int, are negative or small (SSL_read's model stores up to `num` arbitrary bytes) */
 #define BT_LEN_OK(len) ((len) > 0x7fffffffUL && (len) <= (1UL << 33))
 #define BT_CAP_OK(c) (((c) >= (1UL << 31) && (c) < (1UL << 32)) || ((c) >= (1UL << 32) && (c) <= (1UL << 32) + BT_CAP_MAX))
 #else
-/* variant lower (default): the range the framing layer uses (LOWER_SEND_REQUIRES / LOWER_RECV_REQUIRES of contracts/lower.h);
- * receive buffers above BT_CAP_MAX are not explored: SSL_read's model stores up to `capacity` arbitrary bytes, which beyond
- * that exhausts the solver's memory (2^17 = 2 * the largest frame the tls framing layer ever asks for) */
-#define BT_LEN_OK(len) ((len) >= 1 && (len) <= 0x7ffff000UL)
+/* variant lower (default): the range the framing layer uses (LOWER_SEND_REQUIRES / LOWER_RECV_REQUIRES of contracts/lower.h),
+ * for send with the corner len == 0 added.  Receive buffers above BT_CAP_MAX are not explored: SSL_read's model stores up
+ * to `capacity` arbitrary bytes, which beyond that exhausts the solver's memory (2^17 = 2 * the largest frame the tls
+ * framing layer ever asks for) */
+#define BT_LEN_OK(len) ((len) <= 0x7ffff000UL)
 #define BT_CAP_OK(c) ((c) >= 1 && (c) <= BT_CAP_MAX)
 #endif
 #define BT_CAP_MAX (1UL << 17)
@@ -319,6 +562,8 @@ __CPROVER_ensures((xv_sw_calls != __CPROVER_old(xv_sw_calls) && xv_sw_ret <= 0) 
         (xv_sw_ret == 0 ? (BT_STATE(s) == conn_state_closed && xv_errno == EPIPE) : BT_EV_MAP_AFTER(s, XCM_SO_SENDABLE, xv_ssl_errno)) && \
         (BT_STATE(s) == conn_state_ready ==> xv_errno == EAGAIN) && (BT_STATE(s) == conn_state_closed ==> xv_errno == EPIPE) && \
         (BT_STATE(s) == conn_state_bad ==> xv_errno == BT(s)->conn.badness_reason)))
+/* PO[C06] btls_send.closed_only_if_close_seen: a connection is declared closed only when the peer's close was seen (close_notify, EOF/EPIPE from the transport, or SSL_write's legacy 0 result for a non-empty write) */
+__CPROVER_ensures((BT_STATE(s) == conn_state_closed && BT_OLD_STATE(s) != conn_state_closed) ==> (xv_ssl_close_seen || (xv_sw_calls != __CPROVER_old(xv_sw_calls) && xv_sw_ret == 0 && xv_sw_num > 0)))
 /* PO[C02] btls_send.counters: bytes are counted (accepted from the application, handed to the lower layer) exactly when and as accepted */
 __CPROVER_ensures(__CPROVER_return_value >= 1 \
         ? (BCN(s, from_app_bytes) == __CPROVER_old(BCN(s, from_app_bytes)) + __CPROVER_return_value && BCN(s, to_lower_bytes) == __CPROVER_old(BCN(s, to_lower_bytes)) + __CPROVER_return_value) \
@@ -354,8 +599,10 @@ __CPROVER_ensures((BT_HS_ENTERED && BT_DEAD_STATE(s)) ==> (BT_STATE(s) == conn_s
 __CPROVER_ensures((BT_STATE(s) != conn_state_ready && !BT_DEAD_STATE(s)) ==> (__CPROVER_return_value == -1 && xv_errno == EAGAIN && xv_sr_calls == __CPROVER_old(xv_sr_calls)))
 /* PO[C02,C06] btls_receive.stream: the lower-layer receive contract: rv >= 1: buf[0..rv) are the next rv bytes of the plaintext stream; 0: the socket is closed; -1: nothing consumed, errno > 0, anything but EAGAIN means terminal */
 __CPROVER_ensures(BT_LOWER_RECV_ENSURES(s, __CPROVER_return_value, buf, capacity))
-/* PO[C06] btls_receive.eof_honest: 0 is reported only when the peer's close has been seen (close_notify, or EOF/EPIPE from the transport) -- in this call or earlier */
-__CPROVER_ensures(__CPROVER_return_value == 0 ==> (BT_OLD_STATE(s) == conn_state_closed || xv_ssl_close_seen))
+/* PO[C06] btls_receive.eof_honest: 0 is reported only when the peer's close has been seen (close_notify, or EOF/EPIPE from the transport) -- in this call or earlier -- or when the caller offered no room at all (capacity 0: the API cannot express "the leading 0 bytes" differently, cf. ux_receive) */
+__CPROVER_ensures(__CPROVER_return_value == 0 ==> (BT_OLD_STATE(s) == conn_state_closed || xv_ssl_close_seen || capacity == 0))
+/* PO[C06] btls_receive.closed_only_if_close_seen: a connection is declared closed (receive 0 for ever, send EPIPE) only when the peer's close was seen */
+__CPROVER_ensures((BT_STATE(s) == conn_state_closed && BT_OLD_STATE(s) != conn_state_closed) ==> xv_ssl_close_seen)
 /* PO[C02] btls_receive.rv_is_openssl_count */
 __CPROVER_ensures(__CPROVER_return_value >= 1 ==> (xv_sr_calls == __CPROVER_old(xv_sr_calls) + 1 && __CPROVER_return_value == xv_sr_ret))
 /* PO[C06] btls_receive.failure_mapping: a refused SSL_read: WANT_* => EAGAIN; close_notify / EOF / EPIPE => closed, 0; protocol error => bad, EPROTO; transport errno e => bad, e */
@@ -367,6 +614,275 @@ __CPROVER_ensures(__CPROVER_return_value >= 1 \
         ? (BCN(s, to_app_bytes) == __CPROVER_old(BCN(s, to_app_bytes)) + __CPROVER_return_value && BCN(s, from_lower_bytes) == __CPROVER_old(BCN(s, from_lower_bytes)) + __CPROVER_return_value) \
         : (BT_SAME(s, to_app_bytes) && BT_SAME(s, from_lower_bytes) && BT_SAME(s, to_app_msgs) && BT_SAME(s, from_lower_msgs)))
 __CPROVER_ensures(BT_CONN_INV(s))
+;
+
+/* ================================================================================================================ */
+/* C09/C18: policy consistency and credential designation at creation                                                */
+/* ================================================================================================================ */
+#define BT_IT_SET(it) ((it).type != item_type_none)
+#define BT_IT_OK(it) ((unsigned)(it).type <= (unsigned)item_type_value)
+#define BT_ITEMS_OK(s) (BT_IT_OK(BT(s)->cert) && BT_IT_OK(BT(s)->key) && BT_IT_OK(BT(s)->tc) && BT_IT_OK(BT(s)->crl))
+/* ghost selector (never assigned): which of the four credential items is the watched one (xv_it_watch) */
+int xv_sel;
+#define BT_SEL_ITEM(s) (xv_sel == 0 ? &BT(s)->cert : xv_sel == 1 ? &BT(s)->key : xv_sel == 2 ? &BT(s)->tc : &BT(s)->crl)
+#define BT_SEL_OK(s) (xv_sel >= 0 && xv_sel <= 3 && xv_it_watch == BT_SEL_ITEM(s))
+/* fields of the watched item, read through the socket (a ghost pointer that is merely ASSUMED equal to an address inside a
+ * fresh object is not dereferenceable for CBMC) */
+#define BT_W(s, f) (xv_sel == 0 ? BT(s)->cert.f : xv_sel == 1 ? BT(s)->key.f : xv_sel == 2 ? BT(s)->tc.f : BT(s)->crl.f)
+#define BT_W_OLD(s, f) (xv_sel == 0 ? __CPROVER_old(BT(s)->cert.f) : xv_sel == 1 ? __CPROVER_old(BT(s)->key.f) : xv_sel == 2 ? __CPROVER_old(BT(s)->tc.f) : __CPROVER_old(BT(s)->crl.f))
+#define XV_C(f, lit, i) ((i) >= sizeof(lit) || (f)[i] == (lit)[i])
+#define XV_STR_EQ(f, lit) (XV_C(f, lit, 0) && XV_C(f, lit, 1) && XV_C(f, lit, 2) && XV_C(f, lit, 3) && XV_C(f, lit, 4) && XV_C(f, lit, 5) && XV_C(f, lit, 6) && XV_C(f, lit, 7) && \
+                           XV_C(f, lit, 8) && XV_C(f, lit, 9) && XV_C(f, lit, 10) && XV_C(f, lit, 11) && XV_C(f, lit, 12) && XV_C(f, lit, 13) && XV_C(f, lit, 14) && XV_C(f, lit, 15))
+#define BT_TMPL_DEFAULT(f) (xv_sel == 0 ? XV_STR_EQ(f, "%s/cert.pem") : xv_sel == 1 ? XV_STR_EQ(f, "%s/key.pem") : xv_sel == 2 ? XV_STR_EQ(f, "%s/tc.pem") : XV_STR_EQ(f, "%s/crl.pem"))
+#define BT_TMPL_NS(f) (xv_sel == 0 ? XV_STR_EQ(f, "%s/cert_%s.pem") : xv_sel == 1 ? XV_STR_EQ(f, "%s/key_%s.pem") : xv_sel == 2 ? XV_STR_EQ(f, "%s/tc_%s.pem") : XV_STR_EQ(f, "%s/crl_%s.pem"))
+/* the four documented inconsistencies (xcm.h, "TLS Socket Attributes"), on the entry state */
+#define BT_INC_TC(s) (!BT(s)->tls_auth && __CPROVER_old(BT(s)->tc.type) != item_type_none && BT(s)->tc_set)
+#define BT_INC_CRL_CHECK(s) (!BT(s)->tls_auth && BT(s)->check_crl)
+#define BT_INC_CRL(s) (!BT(s)->check_crl && __CPROVER_old(BT(s)->crl.type) != item_type_none && BT(s)->crl_set)
+#define BT_INC_NAMES(s) (!BT(s)->verify_peer_name && __CPROVER_old(BT(s)->valid_peer_names) != NULL && BT(s)->valid_peer_names_set)
+#define BT_INCONSISTENT(s) (BT_INC_TC(s) || BT_INC_CRL_CHECK(s) || BT_INC_CRL(s) || BT_INC_NAMES(s))
+/* the watched item is needed by the policy / is an inherited leftover the policy has no use for */
+#define BT_SEL_NEEDED(s) (xv_sel <= 1 || (xv_sel == 2 && BT(s)->tls_auth) || (xv_sel == 3 && BT(s)->check_crl))
+#define BT_SEL_DROPPED(s) ((xv_sel == 2 && !BT(s)->tls_auth) || (xv_sel == 3 && !BT(s)->check_crl))
+#define BT_ALL_DESIGNATED_OLD(s) (__CPROVER_old(BT(s)->cert.type) != item_type_none && __CPROVER_old(BT(s)->key.type) != item_type_none && \
+                                  (!BT(s)->tls_auth || __CPROVER_old(BT(s)->tc.type) != item_type_none) && (!BT(s)->check_crl || __CPROVER_old(BT(s)->crl.type) != item_type_none))
+#define BT_NO_LOOKUPS (xv_getenv_calls == __CPROVER_old(xv_getenv_calls) && xv_ns_calls == __CPROVER_old(xv_ns_calls) && xv_asp_calls == __CPROVER_old(xv_asp_calls))
+#define BT_CONF_GHOST_LIM(lim) (XV_CNT_LIM(xv_it_w_deinits, lim) && XV_CNT_LIM(xv_it_w_sets, lim) && XV_CNT_LIM(xv_it_w_copies, lim) && XV_CNT_LIM(xv_asp_calls, lim) && \
+                             XV_CNT_LIM(xv_ns_calls, lim) && XV_CNT_LIM(xv_getenv_calls, lim) && XV_CNT_LIM(xv_slist_destroy_calls, lim))
+#define BT_CONF_GHOST_RANGE BT_CONF_GHOST_LIM(XV_SSL_CALLS_MAX)
+#define BT_CONF_GHOST_RANGE_IN BT_CONF_GHOST_LIM(4 * XV_SSL_CALLS_MAX)
+
+static int finalize_tls_conf(struct xcm_socket *s)
+__CPROVER_requires(BT_FRESH(s) && BT_ITEMS_OK(s) && BT_BOOLS_OK(s) && BT_SEL_OK(s) && BT_CONF_GHOST_RANGE_IN)
+__CPROVER_assigns(xv_errno, XV_ITEM_ASSIGNS, XV_ASP_ASSIGNS, XV_NS_ASSIGNS, xv_getenv_calls, xv_slist_destroy_calls, xv_slist_destroyed)
+__CPROVER_assigns(BT(s)->cert, BT(s)->key, BT(s)->tc, BT(s)->crl, BT(s)->valid_peer_names)
+__CPROVER_ensures(__CPROVER_return_value == 0 || __CPROVER_return_value == -1)
+/* PO[C09] finalize_tls_conf.inconsistent_is_einval: trusted CAs set with authentication off, CRL checking with authentication off, a CRL set with CRL checking off, peer names set with name verification off: each is refused with EINVAL */
+__CPROVER_ensures(BT_INCONSISTENT(s) ==> (__CPROVER_return_value == -1 && xv_errno == EINVAL))
+/* PO[C09] finalize_tls_conf.no_spurious_refusal: nothing else is refused, and nothing was looked up for a refused configuration */
+__CPROVER_ensures(__CPROVER_return_value == -1 ==> (BT_INCONSISTENT(s) && xv_errno == EINVAL && BT_NO_LOOKUPS))
+/* PO[C09] finalize_tls_conf.consistent_on_success: afterwards trusted CAs are designated IFF authentication is on, a CRL IFF CRL checking is on, certificate and key always, and expected names only with name verification on */
+__CPROVER_ensures(__CPROVER_return_value == 0 ==> (BT_IT_SET(BT(s)->cert) && BT_IT_SET(BT(s)->key) && (BT(s)->tls_auth != 0) == BT_IT_SET(BT(s)->tc) && \
+                                                    (BT(s)->check_crl != 0) == BT_IT_SET(BT(s)->crl) && (!BT(s)->verify_peer_name ==> BT(s)->valid_peer_names == NULL) && \
+                                                    (BT(s)->verify_peer_name ==> BT(s)->valid_peer_names == __CPROVER_old(BT(s)->valid_peer_names))))
+/* PO[C09] finalize_tls_conf.inherited_names_dropped: names inherited from the server socket but not wanted are destroyed, once */
+__CPROVER_ensures((__CPROVER_return_value == 0 && !BT(s)->verify_peer_name && __CPROVER_old(BT(s)->valid_peer_names) != NULL) \
+                  ? (xv_slist_destroy_calls == __CPROVER_old(xv_slist_destroy_calls) + 1 && xv_slist_destroyed == __CPROVER_old(BT(s)->valid_peer_names)) \
+                  : xv_slist_destroy_calls == __CPROVER_old(xv_slist_destroy_calls))
+/* PO[C18] finalize_tls_conf.designated_kept: an item designated on the socket (by file or by value) and wanted by the policy is used as it is */
+__CPROVER_ensures((__CPROVER_return_value == 0 && BT_W_OLD(s, type) != item_type_none && !BT_SEL_DROPPED(s)) ==> \
+                  (BT_W(s, type) == BT_W_OLD(s, type) && BT_W(s, data) == BT_W_OLD(s, data) && \
+                   xv_it_w_sets == __CPROVER_old(xv_it_w_sets) && xv_it_w_deinits == __CPROVER_old(xv_it_w_deinits)))
+/* PO[C18] finalize_tls_conf.leftover_dropped: trusted CAs / a CRL the policy has no use for (inherited, not set on this socket) are dropped, never used */
+__CPROVER_ensures((__CPROVER_return_value == 0 && BT_SEL_DROPPED(s)) ==> (BT_W(s, type) == item_type_none && xv_it_w_sets == __CPROVER_old(xv_it_w_sets)))
+/* PO[C18] finalize_tls_conf.default_as_it_stands: an item that is wanted but not designated becomes the FILE named by formatting the item's template with the certificate directory -- XCM_TLS_CERT as read in THIS call, else the built-in default -- and, when the calling thread's network namespace (looked up in THIS call) has a name, that name with the per-namespace template */
+__CPROVER_ensures((__CPROVER_return_value == 0 && BT_W_OLD(s, type) == item_type_none && BT_SEL_NEEDED(s)) ==> ( \
+        BT_W(s, type) == item_type_file && !BT_W(s, sensitive) && xv_it_w_sets == __CPROVER_old(xv_it_w_sets) + 1 && \
+        xv_getenv_calls == __CPROVER_old(xv_getenv_calls) + 1 && xv_ns_calls == __CPROVER_old(xv_ns_calls) + 1 && \
+        (xv_env_set ? xv_it_w_a == xv_env_val : xv_it_w_a_default) && \
+        ((xv_ns_rc < 0 || xv_ns_empty) ? (xv_it_w_nargs == 1 && BT_TMPL_DEFAULT(xv_it_w_fmt)) \
+                                        : (xv_it_w_nargs == 2 && xv_it_w_b == xv_ns_buf && BT_TMPL_NS(xv_it_w_fmt)))))
+__CPROVER_ensures(XV_GROW(xv_it_w_deinits, 1) && XV_GROW(xv_it_w_sets, 1) && xv_it_w_copies == __CPROVER_old(xv_it_w_copies) && XV_GROW(xv_asp_calls, 4) && XV_GROW(xv_ns_calls, 1) && \
+                  XV_GROW(xv_getenv_calls, 1) && XV_GROW(xv_slist_destroy_calls, 1) && BT_ITEMS_OK(s))
+/* PO[C18] finalize_tls_conf.no_lookup_when_designated: with everything designated on the socket neither the environment nor the namespace is consulted */
+__CPROVER_ensures(BT_ALL_DESIGNATED_OLD(s) ==> BT_NO_LOOKUPS)
+;
+
+/* ---- inherit_tls_conf: an accepted connection starts from the server socket's policy and credentials */
+#define BT_W2(s, f) (xv_sel == 0 ? &BT(s)->cert : xv_sel == 1 ? &BT(s)->key : xv_sel == 2 ? &BT(s)->tc : &BT(s)->crl)
+static void inherit_tls_conf(struct xcm_socket *s, struct xcm_socket *parent_s)
+__CPROVER_requires(BT_FRESH(s) && BT_FRESH(parent_s) && BT_ITEMS_OK(s) && BT_ITEMS_OK(parent_s) && BT_SEL_OK(s) && BT_CONF_GHOST_RANGE && XV_SSL_CNT_OK(xv_slist_clone_calls))
+__CPROVER_assigns(XV_ITEM_ASSIGNS, xv_slist_clone_calls, xv_slist_clone_src, xv_slist_clone_ret)
+__CPROVER_assigns(BT(s)->cert, BT(s)->key, BT(s)->tc, BT(s)->crl, BT(s)->valid_peer_names)
+__CPROVER_assigns(BT(s)->tls_auth, BT(s)->check_crl, BT(s)->tls_client, BT(s)->check_time, BT(s)->verify_peer_name)
+/* PO[C09] inherit_tls_conf.policy: the five policy fields of the accepted socket equal the server socket's */
+__CPROVER_ensures(BT(s)->tls_auth == BT(parent_s)->tls_auth && BT(s)->check_crl == BT(parent_s)->check_crl && BT(s)->tls_client == BT(parent_s)->tls_client && \
+                  BT(s)->check_time == BT(parent_s)->check_time && BT(s)->verify_peer_name == BT(parent_s)->verify_peer_name)
+/* PO[C09,C18] inherit_tls_conf.credentials: each of the four credential items is a copy of the server socket's item of the same kind (designated the same way, or not at all) */
+__CPROVER_ensures(BT_W(s, type) == BT_W(parent_s, type) && xv_it_w_copies == __CPROVER_old(xv_it_w_copies) + 1 && xv_it_w_src == BT_SEL_ITEM(parent_s) && \
+                  xv_it_w_sets == __CPROVER_old(xv_it_w_sets))
+/* PO[C09] inherit_tls_conf.names: the expected peer names are a clone of the server socket's list; none if it has none */
+__CPROVER_ensures(BT(parent_s)->valid_peer_names != NULL \
+        ? (xv_slist_clone_calls == __CPROVER_old(xv_slist_clone_calls) + 1 && xv_slist_clone_src == BT(parent_s)->valid_peer_names && \
+           BT(s)->valid_peer_names == xv_slist_clone_ret && BT(s)->valid_peer_names != NULL) \
+        : (xv_slist_clone_calls == __CPROVER_old(xv_slist_clone_calls) && BT(s)->valid_peer_names == __CPROVER_old(BT(s)->valid_peer_names)))
+/* PO[C09] inherit_tls_conf.marks_not_inherited: "set on this socket" marks are the accepted socket's own; the server socket is not modified */
+__CPROVER_ensures(BT(s)->valid_peer_names_set == __CPROVER_old(BT(s)->valid_peer_names_set) && BT(s)->tc_set == __CPROVER_old(BT(s)->tc_set) && \
+                  BT(s)->crl_set == __CPROVER_old(BT(s)->crl_set))
+;
+
+/* ================================================================================================================ */
+/* C02: the BIO between OpenSSL and the btcp sub-socket                                                              */
+/* ================================================================================================================ */
+/* ---- the btcp sub-socket, ASSUMED (contracts/lower.h; enforced in unit btcp), plus a record of the socket addressed */
+struct xcm_socket *xv_low_s; long xv_low_send_calls, xv_low_recv_calls, xv_low_finish_calls;
+int xcm_tp_socket_send(struct xcm_socket *__restrict s, const void *__restrict buf, size_t len)
+__CPROVER_requires(LOWER_SEND_REQUIRES(buf, len))
+__CPROVER_assigns(LOWER_SEND_ASSIGNS, xv_low_s, xv_low_send_calls)
+__CPROVER_ensures(LOWER_SEND_ENSURES(__CPROVER_return_value, buf, len))
+__CPROVER_ensures(LOWER_DEAD_MONOTONE && xv_low_s == s && xv_low_send_calls == __CPROVER_old(xv_low_send_calls) + 1)
+;
+int xcm_tp_socket_receive(struct xcm_socket *__restrict s, void *__restrict buf, size_t capacity)
+__CPROVER_requires(LOWER_RECV_REQUIRES(buf, capacity))
+__CPROVER_assigns(LOWER_RECV_ASSIGNS(buf, capacity), xv_low_s, xv_low_recv_calls)
+__CPROVER_ensures(LOWER_RECV_ENSURES(__CPROVER_return_value, buf, capacity))
+__CPROVER_ensures(LOWER_DEAD_MONOTONE && xv_low_s == s && xv_low_recv_calls == __CPROVER_old(xv_low_recv_calls) + 1)
+;
+int xcm_tp_socket_finish(struct xcm_socket *s)
+__CPROVER_requires(1)
+__CPROVER_assigns(xv_errno, xv_lower_dead, xv_low_s, xv_low_finish_calls)
+__CPROVER_ensures((__CPROVER_return_value == 0 && !xv_lower_dead && !__CPROVER_old(xv_lower_dead) && xv_errno == __CPROVER_old(xv_errno)) || \
+                  (__CPROVER_return_value == -1 && xv_errno > 0 && (xv_errno != EAGAIN ==> xv_lower_dead)))
+__CPROVER_ensures(LOWER_DEAD_MONOTONE && xv_low_s == s && xv_low_finish_calls == __CPROVER_old(xv_low_finish_calls) + 1)
+;
+_Bool xv_bio_nullbuf;
+static inline void xv_low_havoc(void)
+{
+    xv_bio_nullbuf = nondet_bool();
+    xv_low_s = (struct xcm_socket *)nondet_size_t(); xv_low_send_calls = nondet_long(); xv_low_recv_calls = nondet_long(); xv_low_finish_calls = nondet_long();
+}
+#define BT_LOW_RANGE (XV_SSL_CNT_OK(xv_low_send_calls) && XV_SSL_CNT_OK(xv_low_recv_calls) && XV_SSL_CNT_OK(xv_low_finish_calls) && BT_GHOST_RANGE)
+#define BT_RETRY_MASK (BIO_FLAGS_READ | BIO_FLAGS_WRITE | BIO_FLAGS_IO_SPECIAL | BIO_FLAGS_SHOULD_RETRY)
+
+static int bio_btcp_write(BIO *b, const char *buf, int len)
+__CPROVER_requires(len >= 1 && len <= 0x7ffff000 && __CPROVER_is_fresh(buf, (size_t)len) && BT_LOW_RANGE)
+__CPROVER_assigns(LOWER_SEND_ASSIGNS, xv_low_s, xv_low_send_calls, xv_bio_flags)
+/* PO[C02] bio_btcp_write.passthrough: exactly one send of exactly (buf, len) on the btcp sub-socket stored in the BIO; its result and the bytes it took are what OpenSSL is told */
+__CPROVER_ensures(xv_low_send_calls == __CPROVER_old(xv_low_send_calls) + 1 && xv_low_s == (struct xcm_socket *)xv_bio_data && \
+                  LOWER_SEND_ENSURES(__CPROVER_return_value, buf, (size_t)len))
+/* PO[C02] bio_btcp_write.retry_iff_eagain: EAGAIN from the sub-socket is turned into "retry the write" (so OpenSSL reports WANT_WRITE, not a fatal SYSCALL error); nothing else is */
+__CPROVER_ensures(((xv_bio_flags & BT_RETRY_MASK) == (BIO_FLAGS_WRITE | BIO_FLAGS_SHOULD_RETRY)) == (__CPROVER_return_value < 0 && xv_errno == EAGAIN))
+__CPROVER_ensures(!(__CPROVER_return_value < 0 && xv_errno == EAGAIN) ==> (xv_bio_flags & BT_RETRY_MASK) == 0)
+;
+static int bio_btcp_read(BIO *b, char *buf, int capacity)
+/* xv_bio_nullbuf (ghost, never assigned): the call is OpenSSL's probe with buf == NULL; otherwise a buffer of 1..BT_CAP_MAX bytes
+ * (OpenSSL reads at most one TLS record, 16 KiB + overhead, at a time) */
+__CPROVER_requires(capacity >= 1 && (size_t)capacity <= BT_CAP_MAX && (!xv_bio_nullbuf ==> __CPROVER_is_fresh(buf, (size_t)capacity)) && (xv_bio_nullbuf ==> buf == NULL))
+__CPROVER_requires(BT_LOW_RANGE)
+__CPROVER_assigns(xv_errno, xv_rx_off, xv_rx_eof, xv_lower_dead, xv_low_s, xv_low_recv_calls, xv_bio_flags)
+__CPROVER_assigns(buf != NULL: __CPROVER_object_upto(buf, (size_t)capacity))
+/* PO[C02] bio_btcp_read.passthrough: exactly one receive into exactly (buf, capacity) on the btcp sub-socket stored in the BIO; its result and bytes are what OpenSSL gets */
+__CPROVER_ensures(buf != NULL ==> (xv_low_recv_calls == __CPROVER_old(xv_low_recv_calls) + 1 && xv_low_s == (struct xcm_socket *)xv_bio_data && \
+                                   LOWER_RECV_ENSURES(__CPROVER_return_value, buf, (size_t)capacity)))
+/* PO[C02] bio_btcp_read.retry_iff_eagain: EAGAIN is turned into "retry the read" (WANT_READ); end of stream is flagged as EOF; nothing else */
+__CPROVER_ensures(buf != NULL ==> (((xv_bio_flags & BT_RETRY_MASK) == (BIO_FLAGS_READ | BIO_FLAGS_SHOULD_RETRY)) == (__CPROVER_return_value < 0 && xv_errno == EAGAIN) && \
+                                   (!(__CPROVER_return_value < 0 && xv_errno == EAGAIN) ==> (xv_bio_flags & BT_RETRY_MASK) == 0) && \
+                                   (__CPROVER_return_value == 0 ==> (xv_bio_flags & BIO_FLAGS_IN_EOF) != 0)))
+__CPROVER_ensures(buf == NULL ==> (__CPROVER_return_value == 0 && xv_low_recv_calls == __CPROVER_old(xv_low_recv_calls) && xv_bio_flags == __CPROVER_old(xv_bio_flags)))
+;
+
+/* ---- btls_finish */
+#define BT_IS_CONN(s) ((s)->type == xcm_socket_type_conn)
+static int btls_finish(struct xcm_socket *s)
+__CPROVER_requires(BT_FRESH(s) && XV_SSL_GHOST_RANGE && BT_LOW_RANGE && (s->type == xcm_socket_type_conn || s->type == xcm_socket_type_server))
+__CPROVER_requires(BT_IS_CONN(s) ==> (BT_CONN_INV(s) && BT_STATE(s) >= conn_state_tls_handshaking))
+__CPROVER_assigns(xv_errno, xv_lower_dead, xv_low_s, xv_low_finish_calls, XV_SSL_HS_ASSIGNS, XV_SSL_VERDICT_ASSIGNS)
+__CPROVER_assigns(BT_STATE(s), BT(s)->conn.badness_reason, BT(s)->conn.ssl_condition, BT(s)->conn.ssl_wants)
+__CPROVER_ensures(__CPROVER_return_value == 0 || __CPROVER_return_value == -1)
+/* PO[C09] btls_finish.success_only_if_verified: finish succeeds on a connection ONLY IF the handshake is done and its verdict satisfies the socket's policy (state ready), and the btcp sub-socket has nothing pending either */
+__CPROVER_ensures((BT_IS_CONN(s) && __CPROVER_return_value == 0) ==> (BT_STATE(s) == conn_state_ready && xv_ssl_hs_done && BT_VERDICT_OK(s) && \
+                                                                       xv_low_finish_calls == __CPROVER_old(xv_low_finish_calls) + 1 && xv_low_s == BT(s)->btcp_socket))
+/* PO[C06] btls_finish.terminal_reported: bad => the stored errno, closed => EPIPE (also when this very call discovers it), and both stick */
+__CPROVER_ensures((BT_IS_CONN(s) && BT_STATE(s) == conn_state_bad) ==> (__CPROVER_return_value == -1 && xv_errno == BT(s)->conn.badness_reason))
+__CPROVER_ensures((BT_IS_CONN(s) && BT_STATE(s) == conn_state_closed) ==> (__CPROVER_return_value == -1 && xv_errno == EPIPE))
+__CPROVER_ensures((BT_IS_CONN(s) && BT_WAS_DEAD(s)) ==> (BT_STATE(s) == BT_OLD_STATE(s) && BT(s)->conn.badness_reason == __CPROVER_old(BT(s)->conn.badness_reason) && \
+                                                         xv_hs_calls == __CPROVER_old(xv_hs_calls) && xv_low_finish_calls == __CPROVER_old(xv_low_finish_calls)))
+/* PO[C09] btls_finish.busy_while_handshaking */
+__CPROVER_ensures((BT_IS_CONN(s) && BT_STATE(s) == conn_state_tls_handshaking) ==> (__CPROVER_return_value == -1 && xv_errno == EAGAIN && xv_low_finish_calls == __CPROVER_old(xv_low_finish_calls)))
+/* a server socket: whatever its btcp sub-socket says */
+__CPROVER_ensures(!BT_IS_CONN(s) ==> (xv_low_finish_calls == __CPROVER_old(xv_low_finish_calls) + 1 && xv_low_s == BT(s)->btcp_socket && xv_hs_calls == __CPROVER_old(xv_hs_calls)))
+__CPROVER_ensures(BT_IS_CONN(s) ==> BT_CONN_INV(s))
+;
+
+/* ================================================================================================================ */
+/* C09/C18: connection set-up: policy check, credentials, configuration of OpenSSL -- all BEFORE the first handshake step */
+/* ================================================================================================================ */
+/* ---- deinit: releases what the socket holds (lifecycle, not a subject of C09; used as a contract by connect/accept) */
+static void deinit(struct xcm_socket *s, bool owner)
+__CPROVER_requires(BT_FRESH(s))
+__CPROVER_requires(BT_ITEMS_OK(s))
+__CPROVER_requires(XV_SSL_GHOST_RANGE_IN)
+__CPROVER_requires(XV_OTHER_RANGE_IN)
+__CPROVER_requires(BT_CONF_GHOST_RANGE_IN)
+__CPROVER_requires((s->type == xcm_socket_type_conn || s->type == xcm_socket_type_server) && (BT(s)->ssl_ctx == NULL || (BT(s)->ssl_ctx == XV_CTX && xv_ctx_refs >= 1)))
+__CPROVER_assigns(xv_ssl_free_calls, xv_ssl_free_ssl, xv_bell_dels, xv_slist_destroy_calls, xv_slist_destroyed, xv_ctx_refs, xv_low_destroys, XV_ITEM_ASSIGNS)
+__CPROVER_assigns(BT(s)->cert, BT(s)->key, BT(s)->tc, BT(s)->crl, BT(s)->btcp_socket)
+/* the context reference is given back exactly when one is held; the SSL of a connection is freed; the sub-socket is destroyed */
+__CPROVER_ensures(xv_ctx_refs == __CPROVER_old(xv_ctx_refs) - (BT(s)->ssl_ctx != NULL ? 1 : 0))
+__CPROVER_ensures(xv_low_destroys == __CPROVER_old(xv_low_destroys) + 1 && BT(s)->btcp_socket == NULL)
+__CPROVER_ensures(BT_IS_CONN(s) ? (xv_ssl_free_calls == __CPROVER_old(xv_ssl_free_calls) + 1 && xv_ssl_free_ssl == BT(s)->conn.ssl) : xv_ssl_free_calls == __CPROVER_old(xv_ssl_free_calls))
+__CPROVER_ensures(xv_errno == __CPROVER_old(xv_errno))
+__CPROVER_ensures(XV_GROW(xv_bell_dels, 1) && XV_GROW(xv_slist_destroy_calls, 1) && XV_GROW(xv_it_w_deinits, 1) && xv_it_w_sets == __CPROVER_old(xv_it_w_sets) && xv_it_w_copies == __CPROVER_old(xv_it_w_copies))
+;
+
+/* entry state of btls_connect / btls_accept's connection socket: after xcm_tp_socket_create (calloc) + btls_init (+ attribute setters) */
+#define BT_INITIALIZED(s) (BT_IS_CONN(s) && BT_BOOLS_OK(s) && BT_STATE(s) == conn_state_initialized && BT(s)->conn.ssl == NULL && BT(s)->ssl_ctx == NULL && BT_ITEMS_OK(s) && BT_NAMES_INV(s))
+#define BT_SETUP_GHOSTS_OK (XV_SSL_GHOST_RANGE && XV_OTHER_RANGE && BT_CONF_GHOST_RANGE && XV_SSL_CNT_OK(xv_slist_clone_calls))
+#define BT_SETUP_ASSIGNS xv_errno, XV_ITEM_ASSIGNS, XV_ASP_ASSIGNS, XV_NS_ASSIGNS, xv_getenv_calls, XV_OTHER_ASSIGNS, XV_SSL_NEW_ASSIGNS, XV_SSL_CONF_ASSIGNS, XV_SSL_HOST_ASSIGNS, \
+                         XV_SSL_HS_ASSIGNS, XV_SSL_VERDICT_ASSIGNS, xv_ssl_free_calls, xv_ssl_free_ssl, xv_sw_calls, xv_sr_calls
+#define BT_SETUP_SOCK_ASSIGNS(s) BT(s)->cert, BT(s)->key, BT(s)->tc, BT(s)->crl, BT(s)->valid_peer_names, BT(s)->btcp_socket, BT(s)->ssl_ctx, BT(s)->conn.ssl, \
+                                 BT_STATE(s), BT(s)->conn.badness_reason, BT(s)->conn.ssl_condition, BT(s)->conn.ssl_wants
+/* SSL_new hands out the SSL with its records reset (env/ssl_env.h): a handshake step made in this set-up call / none made */
+#define BT_HS_IN_SETUP(s) (BT(s)->conn.ssl == XV_SSL && xv_hs_calls != 0)
+#define BT_NO_HS_IN_SETUP(s) (BT(s)->conn.ssl == XV_SSL ? xv_hs_calls == 0 : xv_hs_calls == __CPROVER_old(xv_hs_calls))
+/* policy combinations a connection may not be created with: the four of finalize_tls_conf, and name verification without authentication or without any name to expect */
+#define BT_NAMES_NEEDED_MISSING(s, may_use_host) (BT(s)->verify_peer_name && __CPROVER_old(BT(s)->valid_peer_names) == NULL && !(may_use_host))
+#define BT_INVALID_POLICY(s, may_use_host) (BT_INCONSISTENT(s) || (BT(s)->verify_peer_name && !BT(s)->tls_auth) || BT_NAMES_NEEDED_MISSING(s, may_use_host))
+/* what a successful set-up leaves: handshaking or ready, one SSL made from the context fetched for the socket's own four items, its BIO on the btcp sub-socket */
+#define BT_SETUP_OK(s) ((BT_STATE(s) == conn_state_tls_handshaking || BT_STATE(s) == conn_state_ready) && BT_CONN_INV(s) && BT(s)->conn.ssl == XV_SSL && BT(s)->ssl_ctx == XV_CTX && \
+                        xv_ssl_new_ctx == XV_CTX && xv_ctx_get_calls == __CPROVER_old(xv_ctx_get_calls) + 1 && xv_ctx_refs == __CPROVER_old(xv_ctx_refs) + 1 && \
+                        xv_set_bio_ssl == XV_SSL && xv_set_bio_r == XV_BIO && xv_set_bio_w == XV_BIO && xv_bio_data == (void *)BT(s)->btcp_socket)
+/* exactly the socket's policy was given to OpenSSL, once, on the new SSL: mode, flags added to the context's, names */
+#define BT_SETUP_EXACT(s) (xv_ssl_set_verify_calls == 1 && xv_ssl_set_verify_ssl == XV_SSL && xv_ssl_set_verify_mode == BT_MODE(BT(s)->tls_client, BT(s)->tls_auth) && \
+                           xv_ssl_set_verify_cb == verify_cb && xv_x509_flags == (xv_x509_flags0 | BT_XFLAGS(BT(s)->check_crl, BT(s)->check_time)) && \
+                           (BT(s)->verify_peer_name ? (xv_x509_hostflags == (X509_CHECK_FLAG_NO_WILDCARDS | X509_CHECK_FLAG_ALWAYS_CHECK_SUBJECT) && xv_x509_nhosts == (long)xv_slist_n && xv_x509_nhosts >= 1) \
+                                                    : (xv_x509_set_hostflags_calls == 0 && xv_x509_nhosts == 0)) && \
+                           (xv_ssl_mode & (SSL_MODE_ENABLE_PARTIAL_WRITE | SSL_MODE_ACCEPT_MOVING_WRITE_BUFFER)) == (SSL_MODE_ENABLE_PARTIAL_WRITE | SSL_MODE_ACCEPT_MOVING_WRITE_BUFFER))
+/* the context was fetched for the socket's own four items as finalize_tls_conf left them: trusted CAs iff tls.auth, CRL iff tls.check_crl */
+#define BT_CTX_FROM_OWN(s) (xv_ctx_cert == &BT(s)->cert && xv_ctx_key == &BT(s)->key && xv_ctx_tc == &BT(s)->tc && xv_ctx_crl == &BT(s)->crl && \
+                            xv_ctx_cert_type != item_type_none && xv_ctx_key_type != item_type_none && \
+                            (xv_ctx_tc_type != item_type_none) == (BT(s)->tls_auth != 0) && (xv_ctx_crl_type != item_type_none) == (BT(s)->check_crl != 0))
+
+static int btls_connect(struct xcm_socket *s, const char *remote_addr)
+__CPROVER_requires(BT_FRESH(s) && __CPROVER_is_fresh(remote_addr, 1) && BT_INITIALIZED(s) && BT_SEL_OK(s) && BT_SETUP_GHOSTS_OK)
+__CPROVER_assigns(BT_SETUP_ASSIGNS)
+__CPROVER_assigns(BT_SETUP_SOCK_ASSIGNS(s))
+__CPROVER_ensures(__CPROVER_return_value == 0 || (__CPROVER_return_value == -1 && xv_errno > 0))
+/* PO[C09] btls_connect.invalid_policy_refused: an invalid policy combination never gets as far as a TCP connect or a handshake: the call fails (EINVAL unless the address or the credentials are unusable as well) */
+__CPROVER_ensures(BT_INVALID_POLICY(s, xv_addr_is_name) ==> (__CPROVER_return_value == -1 && BT_NO_HS_IN_SETUP(s) && xv_low_connects == __CPROVER_old(xv_low_connects) && \
+                                                             ((xv_addr_valid && xv_ctx_get_calls != __CPROVER_old(xv_ctx_get_calls) && xv_ssl_new_calls != __CPROVER_old(xv_ssl_new_calls) && BT(s)->conn.ssl != NULL) ==> xv_errno == EINVAL) && \
+                                                             (BT_INCONSISTENT(s) ==> xv_errno == EINVAL)))
+/* PO[C09] btls_connect.configured_before_handshake: if a handshake step was made, OpenSSL had been given exactly the socket's policy -- verify mode, CRL/time flags, host flags and every expected name (the address's host name when none was given) -- on the SSL that did the step */
+__CPROVER_ensures(BT_HS_IN_SETUP(s) ==> (xv_hs_calls == 1 && xv_hs_ssl == XV_SSL && BT_SETUP_EXACT(s) && xv_low_connects == __CPROVER_old(xv_low_connects) + 1))
+/* PO[C09] btls_connect.success: success means: policy consistent, OpenSSL configured with it, handshaking or (verdict satisfying the policy) ready */
+__CPROVER_ensures(__CPROVER_return_value == 0 ==> (BT_SETUP_OK(s) && BT_SETUP_EXACT(s) && !BT_INVALID_POLICY(s, xv_addr_is_name) && xv_hs_calls == 1))
+/* PO[C09] btls_connect.policy_not_met_is_eproto: the handshake completed at once but the verdict does not satisfy the policy: EPROTO */
+__CPROVER_ensures((BT_HS_IN_SETUP(s) && xv_hs_ret >= 1 && !BT_VERDICT_OK(s)) ==> (__CPROVER_return_value == -1 && xv_errno == EPROTO))
+/* PO[C18] btls_connect.own_credentials: the TLS context is fetched once, for the socket's own four items as they stand after finalize_tls_conf */
+__CPROVER_ensures(xv_ctx_get_calls != __CPROVER_old(xv_ctx_get_calls) ==> (xv_ctx_get_calls == __CPROVER_old(xv_ctx_get_calls) + 1 && BT_CTX_FROM_OWN(s)))
+/* PO[C18] btls_connect.failure_releases_ctx: a failed connect keeps no context reference */
+__CPROVER_ensures(__CPROVER_return_value == -1 ==> xv_ctx_refs == __CPROVER_old(xv_ctx_refs))
+;
+
+static int btls_accept(struct xcm_socket *conn_s, struct xcm_socket *server_s)
+__CPROVER_requires(BT_FRESH(conn_s) && BT_FRESH(server_s) && BT_PROTO_FRESH(server_s) && BT_INITIALIZED(conn_s) && BT_SEL_OK(conn_s) && BT_SETUP_GHOSTS_OK)
+__CPROVER_requires(BT_PROTO(server_s))
+__CPROVER_assigns(BT_SETUP_ASSIGNS)
+__CPROVER_assigns(BT_SETUP_SOCK_ASSIGNS(conn_s))
+__CPROVER_ensures(__CPROVER_return_value == 0 || (__CPROVER_return_value == -1 && xv_errno > 0))
+/* PO[C09] btls_accept.invalid_policy_refused: an accepted connection whose (inherited and overridden) policy is invalid -- an accepted socket has no host name to fall back on -- never reaches a handshake: EINVAL once a TCP connection was there and the credentials loaded */
+__CPROVER_ensures(BT_INVALID_POLICY(conn_s, 0) ==> (__CPROVER_return_value == -1 && BT_NO_HS_IN_SETUP(conn_s) && \
+                                                    ((xv_low_accepts != __CPROVER_old(xv_low_accepts) && BT_INCONSISTENT(conn_s)) ==> (xv_errno == EINVAL || BT(conn_s)->btcp_socket != NULL))))
+/* PO[C09] btls_accept.configured_before_handshake */
+__CPROVER_ensures(BT_HS_IN_SETUP(conn_s) ==> (xv_hs_calls == 1 && xv_hs_ssl == XV_SSL && BT_SETUP_EXACT(conn_s)))
+/* PO[C09] btls_accept.success */
+__CPROVER_ensures(__CPROVER_return_value == 0 ==> (BT_SETUP_OK(conn_s) && BT_SETUP_EXACT(conn_s) && !BT_INVALID_POLICY(conn_s, 0) && xv_hs_calls == 1))
+/* PO[C09] btls_accept.policy_not_met_is_eproto */
+__CPROVER_ensures((BT_HS_IN_SETUP(conn_s) && xv_hs_ret >= 1 && !BT_VERDICT_OK(conn_s)) ==> (__CPROVER_return_value == -1 && xv_errno == EPROTO))
+/* PO[C18] btls_accept.own_credentials: the context is fetched for the ACCEPTED socket's items (inherited or overridden), never the server socket's */
+__CPROVER_ensures(xv_ctx_get_calls != __CPROVER_old(xv_ctx_get_calls) ==> (xv_ctx_get_calls == __CPROVER_old(xv_ctx_get_calls) + 1 && BT_CTX_FROM_OWN(conn_s)))
+/* PO[C18] btls_accept.failure_releases_ctx */
+__CPROVER_ensures(__CPROVER_return_value == -1 ==> xv_ctx_refs == __CPROVER_old(xv_ctx_refs))
 ;
 
 #include "contracts/end.h"
